@@ -103,4 +103,23 @@ theorem insert_summary (k : Nat) (full : Bool) (sh : Shape) :
     rw [h1, h2]
     refine ⟨h4.1, .inr rfl, by simp [OK_ne_MEMORY_ERROR], by simpa [OK_ne_MEMORY_ERROR] using b.2.2.1, by simp⟩
 
+theorem set_outcome (k : Nat) (sh : Shape) :
+    Good k (allocs sh) {} (setElement k sh).2.2 ∨ Bad k (allocs sh) {} (setElement k sh).2.2 := by
+  rcases setElement_spec k sh {} [] Inv.nil with ⟨_, h⟩ | h
+  · exact .inl h.2.2.1
+  · exact .inr h.2.2.1
+
+theorem set_summary (k : Nat) (sh : Shape) :
+    Balanced (setElement k sh).2.2.evs (match (setElement k sh).2.1 with | some g => g | none => []) ∧
+    ((setElement k sh).1 = OK ∨ (setElement k sh).1 = MEMORY_ERROR) ∧
+    ((setElement k sh).1 = OK ↔ (setElement k sh).2.1.isSome) ∧
+    ((setElement k sh).1 = OK ↔ NoFail (setElement k sh).2.2.evs) := by
+  rcases setElement_spec k sh {} [] Inv.nil with ⟨g, h1, h2, h3, h4⟩ | ⟨h1, h2, h3, h4⟩
+  · have g' := good_init h3
+    rw [h1, h2]
+    exact ⟨by simpa using h4.1, .inl rfl, by simp, by simpa using g'.2.2.1⟩
+  · have b := bad_init h3
+    rw [h1, h2]
+    exact ⟨h4.1, .inr rfl, by simp [OK_ne_MEMORY_ERROR], by simpa [OK_ne_MEMORY_ERROR] using b.2.2.1⟩
+
 end CifModel.Lemmas.Ladder
